@@ -23,6 +23,7 @@ const (
 	KRef                // map, chan, func, unsafe.Pointer, opaque: S = Int term
 	KConst              // untyped integer constant of the spec language
 	KBad                // unsupported value (poison)
+	KGhost              // ghost value of a spec-only sort (S = term, GSort = its SMT sort)
 )
 
 type Val struct {
@@ -36,6 +37,7 @@ type Val struct {
 	C   *big.Int
 	Clo *Closure
 	Why string // for KBad
+	GSort string // KGhost
 	Lit  []Val // KSlice used only as the variadic operand of append: explicit elements, no heap backing
 	Own  bool  // KSlice: backing array freshly allocated here and referenced by this value only
 	From *Cell // value was loaded from this local cell (provenance for move semantics)
@@ -266,7 +268,7 @@ func ptrFromRef(t types.Type, ref string) Val {
 // flatten returns the leaf terms of v, or ok=false if v is not representable.
 func flatten(v Val) ([]string, bool) {
 	switch v.K {
-	case KScalar, KArray, KRef:
+	case KScalar, KArray, KRef, KGhost:
 		return []string{v.S}, true
 	case KSlice:
 		return v.Sl[:], true
